@@ -9,7 +9,8 @@ Contract: every `HopcroftKarp(graph).maximum_matching()` of the real run is reco
       by the Lean checker (`cert.cover`, theorem `cover_cert_sound`).
 [T]:  the real value against (a) the exhaustive specification `spec.bn` (M+N <= 8), (b) a certified optimum at
       every size (independent exact oracle here, certificate verified by `cert.opt`, theorem `cert_opt_sound`),
-      (c) the same cases under several PYTHONHASHSEED values in subprocesses.
+      (c) the same cases under several PYTHONHASHSEED values in subprocesses,
+      (d) the distance returned with `matching=True` is bit-identical to the one without.
 """
 import json, math, os, subprocess, sys, warnings
 from fractions import Fraction
@@ -34,6 +35,7 @@ ASSUMPTIONS = [
 ]
 TRUSTED = ["hopcroftkarp (contract: maximum matching; certified per probe by a Lean-verified vertex-cover check)"]
 TOL = 1e-9
+EXPECTED_DIGEST = "7aaa41904c58f8b1"     # structural digest of persim.bottleneck.bottleneck the model was written against
 EXACT_MODES = ("lattice", "half", "dyadic")
 
 
@@ -324,8 +326,8 @@ def small(case):
 def run(ctx):
     r = ctx.rng
     cases = [norm_case(c) for c in CORPUS]
-    nsmall = ctx.n(700, 5000)
-    nbig = ctx.n(6, 500)
+    nsmall = ctx.n(700, 8000)
+    nbig = ctx.n(6, 1000)
     for _ in range(nsmall):
         cases.append(gen_case(ctx, 7, below=r.random() < 0.05))
     for _ in range(nbig):
@@ -333,8 +335,19 @@ def run(ctx):
 
     # 1. the real code first (its outputs go into the certificate lines)
     plan, lines = [], []
-    for case in cases:
-        code = run_code(case)
+    cov = common.LineCov(["persim/bottleneck.py"])
+    digest = common.source_digest("persim/bottleneck.py", ["bottleneck"])
+    ctx.extra["source_digest"] = {"persim/bottleneck.py:bottleneck": digest, "expected": EXPECTED_DIGEST}
+    if digest != EXPECTED_DIGEST:                 # rewritten code is explored harder, nothing else (DESIGN 3.2)
+        ctx.count("source_digest_changed")
+        for _ in range(nsmall):
+            cases.append(gen_case(ctx, 7, below=r.random() < 0.05))
+    for k, case in enumerate(cases):
+        if k < 80:
+            with cov:
+                code = run_code(case)
+        else:
+            code = run_code(case)
         ent = {"case": case, "code": code, "idx": {}}
         ent["idx"]["bn"] = len(lines)
         lines.append("bn %s %s" % (enc(case["dgm1"]), enc(case["dgm2"])))
@@ -353,6 +366,7 @@ def run(ctx):
             ent["probe_idx"].append((kind, len(lines)))
             lines.append(ln)
         plan.append(ent)
+    ctx.extra["line_coverage_first_80_cases"] = cov.summary()
     answers = ask(lines)
 
     # 2. compare
@@ -420,7 +434,32 @@ def run(ctx):
                           {"correspondence": "hk", "case": slim(case), "pyfail": ent["pyfail"]}, found_input=False)
         if len(ctx.violations) > 5:
             return
+    matching_flag(ctx, plan)
     hash_seeds(ctx, cases)
+
+
+def matching_flag(ctx, plan):
+    """[T] `matching=True` returns the same distance (theorem matching_flag_value on the model)"""
+    bmod = common.pm("bottleneck")
+    for ent in plan[:ctx.n(150, 800)]:
+        case, code = ent["case"], ent["code"]
+        if code[0] != "ok":
+            continue
+        a = to_array(case["dgm1"], case.get("shape1", 0), case.get("int", False))
+        b = to_array(case["dgm2"], case.get("shape2", 0), case.get("int", False))
+        with warnings.catch_warnings():
+            warnings.simplefilter("ignore")
+            with np.errstate(all="ignore"):
+                try:
+                    v = float(bmod.bottleneck(a, b, matching=True)[0])
+                except Exception as e:
+                    v = "err:" + type(e).__name__
+        ok = v == code[1]
+        ctx.test("matching_flag_same_value", ok)
+        if not ok:
+            ctx.violation("bottleneck(..., matching=True) returns distance %r, without the flag %r (certified optimum %s)"
+                          % (v, code[1], ent.get("truth")), slim(case), found_input=True, reproducer=reproducer(case))
+            return
 
 
 def slim(case):
